@@ -265,7 +265,7 @@ macro_rules! by_levels {
         }
     };
 }
-pub(crate) use by_levels;
+
 
 fn mk<const L: usize>(t: u64, tick: u32, trading: bool) -> Box<dyn DynBook> {
     Box::new(OrderBook::<L>::new(t, tick, trading))
